@@ -12,6 +12,11 @@ Mutation testing (scratch worktree of /repo at the fixed tree, VERIF_REPO=<dir>,
   unfix-project-whole    project.go reduces a summarize to a whole-row min/max            green  -> VIOLATION
   unfix-where-summarize  where.go moves conditions on summarize outputs below it          green  -> VIOLATION
   lj-unmatched           join.go LeftJoin.Get drops unmatched rows of 1:n joins           tests red, VIOLATION
+  compatible-fixed-empty (seeded/C22-compatible-fixed-empty, independently written) compatible.go
+                         newCompatible: a column only source2 has, fixed to a set containing "",
+                         makes union/minus/intersect "disjoint"                           green  -> VIOLATION
+                         (reached by Gen.makeDiff: set operations between sources with different column
+                         sets, the extra column fixed by where/extend to "" or a set with "", either side)
   (lj2join, gt-range, covered-multi, union-disjoint-loose, minus-copyfixed-both, ...: the package's own
    tests are already red for them; gt-range is equivalent - where re-filters the rows of its index range)
 On the tree without the fix commits the check reports F10 and the other defects listed as `fixed:` in
@@ -27,22 +32,27 @@ META = {
 }
 
 def classify(ev, opened=None):
-    """key of a rejected Query event for known-findings matching"""
+    """key of a rejected Query event for known-findings matching (as narrow as the finding)"""
     if ev.get("e") != "Query":
         return None
     conf = ev.get("conf", "")
-    if " key()" in conf:
-        return "emptykey-table"
-    k = relcommon.semijoin_rev_key(ev.get("err"), ev.get("plan"))
+    err = ev.get("err") or ""
+    # a Lookup without selection values reaches a non-singleton source below a summarize /
+    # intersect whose other source is a key() table: panic, never a wrong result
+    if " key()" in conf and ("Sels.Get can't find" in err or "selOrg not full" in err):
+        return "emptykey-empty-lookup"
+    k = relcommon.semijoin_rev_key(err, ev.get("plan"))
     if k:
         return k
-    def whole_below(n, top):
-        return n.get("op") == "summarize" and n.get("whole") and not top
-    def whole_under_other(ast):
-        # whole-row summarize anywhere but as the whole query (a sort/where above it excluded)
-        return relcommon.ast_has(ast, whole_below)
-    if whole_under_other(ev.get("ast", {})):
-        return "wholerow-composed"
+
+    def has_whole(n):
+        return relcommon.ast_has(n, lambda x, top: x.get("op") == "summarize" and x.get("whole"))
+
+    def where_over_whole(n, top):
+        # a where with a whole-row min/max summarize somewhere in its source
+        return n.get("op") == "where" and has_whole(n.get("src"))
+    if not err and relcommon.ast_has(ev.get("ast", {}), where_over_whole):
+        return "wholerow-where"
     return None
 
 
@@ -72,5 +82,7 @@ def run(ctx):
         "the AST the oracle sees and the text gSuneido parses come from the same generator node (renderer trusted)",
         "profiles: core = tables with non-empty keys, whole-row min/max only as the whole query; "
         "emptykey = singleton tables declared key(); wholerow = whole-row min/max below other operators",
+        "union/intersect/minus between sources with different columns: a missing column counts as \"\" "
+        "(Compatible.equal); intersect has the common columns, minus the columns of its first source",
         "verif accessors dbms/query/verif_knobs.go set the existing test knobs randomBest/ticostAdj/joinRev",
     ]
